@@ -40,12 +40,17 @@ Proof.
   - intros K. apply (RF_keys _ _ Y). apply (RF_keys _ _ X). exact K.
 Qed.
 
+(** the Renamed calls made so far, oldest first *)
+Definition is_renamed (c : bcall) : bool := match c with BRenamed _ _ _ => true | _ => false end.
+Definition rcalls (s : st) : list bcall := filter is_renamed (calls pfs s).
+
 Record cframe (s s' : st) : Prop := mkCF {
   CF_rf : rframe s s';
   CF_par : forall q, fr_parent (gref s' q) = fr_parent (gref s q);
   CF_path : forall h, hpath (s_be pfs s') h = hpath (s_be pfs s) h;
   CF_sub : forall n q nm, inreg s' n q nm -> inreg s n q nm;
-  CF_keep : rkeys s -> forall n q nm, inreg s n q nm -> live s' q -> inreg s' n q nm }.
+  CF_keep : rkeys s -> forall n q nm, inreg s n q nm -> live s' q -> inreg s' n q nm;
+  CF_rlog : rcalls s' = rcalls s }.
 
 Lemma cf_refl s : cframe s s.
 Proof. constructor; auto. apply rf_refl. Qed.
@@ -60,15 +65,16 @@ Proof.
   - intros K n q nm H L. apply (CF_keep _ _ Y); auto.
     + apply (RF_keys _ _ (CF_rf _ _ X)). exact K.
     + apply (CF_keep _ _ X); auto. apply (RF_live _ _ (CF_rf _ _ Y)). exact L.
+  - rewrite (CF_rlog _ _ Y). apply X.
 Qed.
 
 (** states that differ in counts, holders, flags, log only *)
 Lemma cf_meta (s s' : st) :
   s_nodes pfs s' = s_nodes pfs s -> rlen s' = rlen s ->
   (forall q, fr_with_refs (gref s' q) 0 = fr_with_refs (gref s q) 0) -> (forall q, live s' q -> live s q) ->
-  s_nexth pfs s' = s_nexth pfs s -> fs_same (s_be pfs s) (s_be pfs s') -> cframe s s'.
+  s_nexth pfs s' = s_nexth pfs s -> fs_same (s_be pfs s) (s_be pfs s') -> rcalls s' = rcalls s -> cframe s s'.
 Proof.
-  intros N L Q Lv H (F1 & F2 & F3 & F4).
+  intros N L Q Lv H (F1 & F2 & F3 & F4) RL.
   assert (GN : forall n, gnode s' n = gnode s n) by (intros; unfold get_node; rewrite N; reflexivity).
   assert (FD : forall {A} (f : fidref -> A), (forall x z, f (fr_with_refs x z) = f x) -> forall q, f (gref s' q) = f (gref s q)).
   { intros A f Hf q. rewrite <- (Hf (gref s' q) 0%Z), <- (Hf (gref s q) 0%Z), Q. reflexivity. }
@@ -82,6 +88,7 @@ Proof.
   - intros h. unfold hpath, file_of. rewrite F4. reflexivity.
   - intros n q nm. unfold inreg. rewrite GN. auto.
   - intros _ n q nm. unfold inreg. rewrite GN. auto.
+  - exact RL.
 Qed.
 
 Lemma fs_same_refl fs : fs_same fs fs. Proof. repeat split. Qed.
@@ -126,6 +133,7 @@ Proof.
   - intros q. unfold get_ref. rewrite E3. reflexivity.
   - intros q. unfold live, get_ref. rewrite E3. auto.
   - rewrite E1. apply pfs_step_close.
+  - unfold rcalls, calls, bcall_. destruct (pfs_step (s_be pfs s) (BClose h)). cbn [snd s_log rev]. rewrite filter_app. cbn. apply app_nil_r.
 Qed.
 
 (** ---- registrations under removeChild ---- *)
@@ -243,3 +251,56 @@ Proof. unfold release. eapply cf_trans; [apply cf_with_held | apply cf_decref]. 
 
 Lemma cf_release_all l : forall s : st, cframe s (release_all pfs pfs_step l s).
 Proof. induction l as [|r l IH]; intros s; cbn; [apply cf_refl|]. eapply cf_trans; [apply cf_release | apply IH]. Qed.
+
+(** ---- DecRef touches only the chain of parents / xattr origins ---- *)
+Inductive up (s : st) : nat -> nat -> Prop :=
+| up_refl r : up s r r
+| up_par r p q : fr_parent (gref s r) = Some p -> up s p q -> up s r q
+| up_xat r o q : fr_xattrOf (gref s r) = Some o -> up s o q -> up s r q.
+
+Lemma up_links (s s' : st) : (forall z, fr_parent (gref s' z) = fr_parent (gref s z) /\ fr_xattrOf (gref s' z) = fr_xattrOf (gref s z)) ->
+  forall a b, up s' a b -> up s a b.
+Proof.
+  intros H a b U. induction U as [r | r p q E U IH | r o q E U IH].
+  - apply up_refl.
+  - destruct (H r) as (E1 & _). rewrite E1 in E. eapply up_par; eauto.
+  - destruct (H r) as (_ & E2). rewrite E2 in E. eapply up_xat; eauto.
+Qed.
+
+Lemma cf_links (s s' : st) : cframe s s' -> forall z, fr_parent (gref s' z) = fr_parent (gref s z) /\ fr_xattrOf (gref s' z) = fr_xattrOf (gref s z).
+Proof. intros C z. split; [apply (CF_par _ _ C) | apply (RF_refs _ _ (CF_rf _ _ C) z)]. Qed.
+
+Lemma decref_cnt fuel : forall r (s : st) q, ~ up s r q -> fr_refs (gref (snd (decref pfs pfs_step fuel r s)) q) = fr_refs (gref s q).
+Proof.
+  induction fuel as [|f IH]; intros r s q NU; cbn [decref]; [reflexivity|].
+  set (x := gref s r). set (s1 := set_ref pfs r (fr_with_refs x (fr_refs x - 1)) s).
+  assert (Nq : q <> r) by (intros ->; apply NU; apply up_refl).
+  assert (C1 : cframe s s1) by (apply cf_drop; fold x; lia).
+  assert (R1 : fr_refs (gref s1 q) = fr_refs (gref s q)).
+  { unfold s1. rewrite gref_set_ref. destruct (Nat.eqb_spec q r); [congruence | reflexivity]. }
+  destruct (fr_refs x - 1 =? 0)%Z; [|exact R1].
+  assert (S2 : cframe s1 (snd (match fr_xattrOf x with
+                             | Some o => decref pfs pfs_step f o s1
+                             | None => let '(a, s2) := bcall_ pfs pfs_step (BClose (fr_file x)) s1 in
+                                       (match a with AErr e => Some e | _ => None end, s2)
+                             end)) /\
+               fr_refs (gref (snd (match fr_xattrOf x with
+                             | Some o => decref pfs pfs_step f o s1
+                             | None => let '(a, s2) := bcall_ pfs pfs_step (BClose (fr_file x)) s1 in
+                                       (match a with AErr e => Some e | _ => None end, s2)
+                             end)) q) = fr_refs (gref s q)).
+  { destruct (fr_xattrOf x) as [o|] eqn:EX.
+    - split; [apply cf_decref|]. rewrite IH; [exact R1|]. intros U. apply NU. eapply up_xat; [exact EX|]. eapply up_links; [apply (cf_links _ _ C1) | exact U].
+    - pose proof (cf_bclose (fr_file x) s1) as Q. destruct (bcall_be (BClose (fr_file x)) s1) as (_ & _ & E3 & _).
+      destruct (bcall_ pfs pfs_step _ s1) as [a s2]. cbn [snd] in *. split; [exact Q|]. unfold get_ref. rewrite E3. exact R1. }
+  destruct (match fr_xattrOf x with Some o => _ | None => _ end) as [e1 s2]. cbn [snd] in S2. destruct S2 as (C2 & R2).
+  destruct (fr_parent x) as [p|] eqn:EP; [|exact R2].
+  set (s3 := remove_child pfs (fr_node (gref s2 p)) r s2).
+  assert (R3 : fr_refs (gref s3 q) = fr_refs (gref s q)).
+  { unfold s3, remove_child. destruct (alookup _ _ _); [|exact R2]. destruct (alookup _ _ _); exact R2. }
+  assert (L3 : forall z, fr_parent (gref s3 z) = fr_parent (gref s z) /\ fr_xattrOf (gref s3 z) = fr_xattrOf (gref s z)).
+  { intros z. assert (E : gref s3 z = gref s2 z) by (unfold s3, remove_child; destruct (alookup _ _ _); [|reflexivity]; destruct (alookup _ _ _); reflexivity).
+    rewrite E. destruct (cf_links _ _ C2 z) as (A1 & A2). destruct (cf_links _ _ C1 z) as (B1 & B2). split; congruence. }
+  specialize (IH p s3 q). destruct (decref pfs pfs_step f p s3) as [e2 s4]. cbn [snd] in *. rewrite IH; [exact R3|].
+  intros U. apply NU. eapply up_par; [exact EP|]. eapply up_links; [exact L3 | exact U].
+Qed.
